@@ -127,6 +127,28 @@ INFO = {
                      "expiry test and the arming is skipped and the receiver sleeps through it (forced at the sync point)", ["C16", "C08"]),
     "C19-3": ("C19", "a socket address text longer than 52 bytes ([v6 with embedded v4]:65535, or a long %scope): a length "
                      "guard skips parsing and classifies it as a string", ["C19"]),
+    "C11-3": ("C11", "the driver returns right after reporting Connected for an outgoing connection: bytes the acceptor wrote "
+                     "before the connector processed that event are never read (edge-triggered) until more arrive", ["C11", "C01", "C03"]),
+    "C12-4": ("C12", "Udp pending() answers Incomplete on a read event: a datagram that reaches a connected socket before "
+                     "its first poll event is processed is not read by the read half and the write half does not read", ["C12"]),
+    "C13-4": ("C13", "a bound on tungstenite's write buffer of max payload + 10 bytes forgets the 4-byte client mask: a "
+                     "client-side send within 3 bytes of the declared maximum answers ResourceNotFound", ["C13"]),
+    "C15-4": ("C15", "consecutive cached Message events of one endpoint are merged for every connection-oriented transport "
+                     "(right only for the stream transport Tcp): FramedTcp / Ws messages cached back to back arrive fused", ["C15", "C03"]),
+    "C17-4": ("C17", "an accepted resource whose handshake fails is not deregistered: the next readiness event calls pending() "
+                     "on RemoteState::Error: unreachable!() panics the network thread", ["C17", "C18"]),
+    "C01-3": ("C01", "the WebSocket connector side is configured with the library defaults (16 MiB frame limit) while the "
+                     "acceptor keeps the declared 32 MiB: a message above 16 MiB sent by the acceptor to the connector is "
+                     "refused by the connector and the connection dropped", ["C01", "C13"]),
+    "C10-4": ("C10", "the FramedTcp send lock is acquired by a bounded spin of try_lock with no blocking fallback: when the "
+                     "holder stays inside one frame for long (several socket buffers, slow receiver) the waiter writes unlocked", ["C10"]),
+    "C18-4": ("C18", "FramedTcp with a keepalive configuration the OS rejects: the borrowed Socket is dropped on the error "
+                     "path, closing the stream's descriptor while the resource stays registered", ["C18", "C04"]),
+    "C03-4": ("C03", "more than 128 connections queued at a Tcp listener when its readable event is processed: the accept "
+                     "loop is capped at 128 per event and the edge-triggered event does not fire again", ["C03", "C04"]),
+    "C04-4": ("C04", "WebSocket: a Ping (or Text) frame ahead of the Close frame in one read, the peer keeping its TCP "
+                     "connection open: the loop stops at the control message, the Close stays in the codec buffer: no "
+                     "Disconnected, the endpoint stays registered", ["C04", "C01"]),
     "C19-1": ("C19", "SocketAddrV6 with non-zero flowinfo/scope_id converted to RemoteAddr: the fields are dropped", ["C19"]),
 }
 
